@@ -9,7 +9,7 @@ from dataclasses import dataclass, field
 from pathlib import Path
 
 VERIF = Path(__file__).resolve().parent.parent
-EVIDENCE_DIR = VERIF / "evidence"
+EVIDENCE_DIR = Path(os.environ.get("MDPAX_EVIDENCE_DIR") or (VERIF / "evidence"))
 KNOWN_FINDINGS = VERIF / "known_findings.json"
 
 
